@@ -17,6 +17,10 @@ const BLOCK_SIZE: usize = 64;
 
 const DEFERRED_BLOCK_BATCH_SIZE: usize = 32;
 
+// Bit set in a block's write index once the block has been detached by a clear: no slot can be
+// claimed in a sealed block, since every index handed out from then on is out of range.
+const SEALED: usize = 1 << (usize::BITS - 1);
+
 /// Discrete chunk of values with atomic read/write access.
 struct Block<T> {
     // Write index.
@@ -88,9 +92,23 @@ impl<T> Block<T> {
             return true;
         }
 
+        // A sealed block has been detached by a clear, which itself waits for all claimed slots to
+        // be written before it reads or frees the block; nobody else needs to wait for it.
+        let write = self.write.load(Ordering::Acquire);
+        if write & SEALED != 0 {
+            return true;
+        }
+
         // We have to clamp self.write since multiple threads might race on filling the last block,
         // so the value could actually exceed BLOCK_SIZE.
-        min(self.write.load(Ordering::Acquire), BLOCK_SIZE) == len
+        min(write, BLOCK_SIZE) == len
+    }
+
+    // Seals this block so that no further slots can be claimed, returning the number of slots
+    // claimed up to that point.  Writers holding a stale pointer to a detached block are thereby
+    // turned away (and retry against the current tail) instead of writing values nobody will read.
+    fn seal(&self) -> usize {
+        min(self.write.fetch_or(SEALED, Ordering::AcqRel) & !SEALED, BLOCK_SIZE)
     }
 
     /// Gets a slice of the data written to this block.
@@ -383,10 +401,12 @@ impl<T> AtomicBucket<T> {
             while !block_ptr.is_null() {
                 let block = unsafe { block_ptr.deref() };
 
-                // We wait for the block to be quiesced to ensure we get any in-flight writes, and
-                // snoozing specifically yields the reading thread to ensure things are given a
+                // We seal the block so that no writer can claim a slot in it anymore, and wait for
+                // the slots claimed so far to be written to ensure we get any in-flight writes.
+                // Snoozing specifically yields the reading thread to ensure things are given a
                 // chance to complete.
-                while !block.is_quiesced() {
+                let claimed = block.seal();
+                while block.len() != claimed {
                     backoff.snooze();
                 }
 
